@@ -87,13 +87,13 @@ def case(idx, payload):
     full = impl_pybind(text, streams.TPL_MIN, "m", top, True, [], None)
     res["kinds"].append("pybind" + ("_enum" if has_enum else ""))
     mdl = model_pybind(fw.worker_driver(), text, streams.TPL_MIN, "m", top, True, [cpp], None)
-    if mdl != a:
-        res["bad"] = dict(kind="model", what="pybind output with ignore list differs from the model", input=text, ignore=[cpp])
-        return res
     if a != b and not has_enum:
         d = streams.first_diff(b[1], a[1]) if a[0] == b[0] == "ok" else dict(expected=str(b)[:200], got=str(a)[:200])
         res["bad"] = dict(kind="spec", what="pybind: ignoring class %s is not equivalent to deleting its declaration" % cpp,
                           input=text, input_deleted=text_del, ignore=[cpp], **d)
+        return res
+    if mdl != a:
+        res["bad"] = dict(kind="model", what="pybind output with ignore list differs from the model", input=text, ignore=[cpp])
         return res
     if full[0] == "ok" and b[0] == "ok":
         fb = set(class_blocks(full[1]))
